@@ -3,23 +3,89 @@ from common import Rng
 
 PT = "/verif/.build/pt"
 
+THEOREMS = [
+    "check_run_ok", "encode_lengths_consistent", "encode_frame_bound", "fitLoop_is_fitN", "chunks_partition_entries",
+    "encodeLoop_is_chunks", "roundtrip_update", "roundtrip_open", "roundtrip_small", "roundtrip_keepalive",
+    "roundtrip_refresh", "roundtrip_notification", "as4_roundtrip", "decode_encode_fixed_point",
+    "decode_encode_fixed_point_frame", "encode_frame_bound_full_false", "chunks_partition_full_false",
+    "as4_roundtrip_full_false", "check_run_full_false", "witness_nexthop", "witness_dropped", "witness_open",
+    "witness_partial", "witness_confed",
+]
+
+THEOREM_BACKED = ["OPEN + all capability kinds (block <= 253 bytes)", "NOTIFICATION", "KEEPALIVE", "ROUTE-REFRESH",
+                  "End-of-RIB (any negotiated family)",
+                  "UPDATE Unreach IPv4/IPv6 unicast+multicast: legacy and MP_UNREACH_NLRI, add-path on/off, both frame limits",
+                  "UPDATE Reach IPv4/IPv6 unicast+multicast on 4-octet-AS sessions: legacy (NEXT_HOP) and MP_REACH_NLRI "
+                  "(IPv6 / link-local / RFC 8950 next hop), all attribute kinds of Attribute::decode, add-path on/off",
+                  "AS_PATH 2-byte downgrade + AS4_PATH + reconciliation (as4_roundtrip, function level)",
+                  "chunk loop: partition of the entry list, frame bound under the size side condition"]
+HYPOTHESIS_BACKED = ["NLRI encoders/decoders of VPNv4/v6, labeled-unicast v4/v6, EVPN, flowspec v4/v6(+VPN), BGP-LS, MUP v4/v6, "
+                     "SR-policy v4/v6, RTC: wire bytes and per-entry decode verdict are measured on the real code (probe) and "
+                     "passed in the case; framing/chunking around them is the modelled code; judged by the structural oracle "
+                     "(frame bound, length consistency, byte-level partition, decode-back equality by the REAL decoder)",
+                     "UPDATE Reach towards a 2-byte-AS peer (AS_PATH/AGGREGATOR downgrade inside a whole message): modelled and "
+                     "compared on every case, not covered by the master theorem (only by as4_roundtrip)",
+                     "agreement of the model's negotiate with the RFC reading of the capability sets (negAgree): decidable "
+                     "hypothesis of the master theorem, checked on every generated case by the oracle"]
+
 CONFIG = dict(
-    level_text="(in progress)",
-    level_note="(in progress)",
-    lean_modules=["Rbgp.Enc.Spec"],
-    theorems=[],
+    level_text="Kernel-checked Lean theorems about a hand-written model of the BGP encoder (PeerCodec::negotiate, encode_to / "
+               "do_encode chunk loop, mp_reach/mp_unreach_encode with their reservations, Attribute::encode with the 2-byte-AS "
+               "downgrade, Capability::encode with its u8 arithmetic) and of the peer's decoder: the master theorem "
+               "(the C04 reference checker - framing, negotiated maximum, length-field consistency, decoded (prefix, path-id) "
+               "multiset, next hop, attributes up to the extended-length flag, fixed-point probe - accepts every model run on a "
+               "decidable domain, in the debug and the release arithmetic profile), the partition theorem of the chunk loop, the "
+               "frame bound with its explicit size side condition, OPEN/NOTIFICATION/KEEPALIVE/ROUTE-REFRESH/EoR round trips, "
+               "the AS4 round trip with its exact condition, and kernel-evaluated witnesses for everything the domain excludes. "
+               "The model is tied to packet/src/bgp.rs by running the real encoder + the real peer decoder and the model on the "
+               "same generated cases in debug and release builds and diffing byte streams and decoded values; the reference "
+               "checker is the oracle on the real outputs (it found 2 defects that were repaired and 16 recorded ones).",
+    level_note="Trusted: Lean kernel; axioms propext/Classical.choice/Quot.sound; the hand-written model and reader (checked "
+               "only by the correspondence stream); harness glue (case construction incl. attributes obtained through the real "
+               "decoder, rendering). Master-theorem domain = buildable+encodable messages; UPDATEs of IPv4/IPv6 "
+               "unicast/multicast with room for one entry per frame; announcements only on 4-octet-AS sessions and without an "
+               "IPv4 next hop inside MP_REACH. Modelled, not verified: 2-byte-AS announcements as whole messages, the families "
+               "outside the model (probe-parameterised, impl-only oracle), BytesMut growth, non-ASCII FQDN, Family reserved octet.",
+    lean_modules=["Rbgp.Enc.Props"],
+    theorems=["Rbgp.Enc.Props." + t for t in THEOREMS],
     harness=dict(kind="pt", bin="c04"),
     profiles=["debug", "release"],
     profile_in_case=True,
-    n_quick=2500, n_thorough=120000, shards=12,
+    n_quick=2500, n_thorough=40000, shards=12,
     nontrivial_re=r"\(obs [0-9]+ x[0-9a-f]{60,}",
-    rule="",
-    expect_tokens=[],
-    trusted_base=[],
-    modelled_not_verified=[],
-    assumptions=[],
-    claimed=False,
-    na_reason="model, spec and correspondence in place; theorems in progress",
+    rule="one case = (local capability set, remote capability set, message); the real encode_to output (all frames) and what "
+         "the real peer codec negotiate(remote, local) decodes from it, plus the re-encode/decode fixed-point probe, are "
+         "compared with the model byte for byte in debug and release builds; the oracle is run on the real observation. "
+         "Generator: all message kinds; IPv4/IPv6 unicast+multicast plus 15 impl-only families; entry counts 0..3x frame "
+         "capacity around the frame boundaries (4096 and 65535); attribute blocks 0..limit incl. just below/above what leaves "
+         "room for one NLRI; all pairs of (4-octet AS, extended message, add-path mode 0-3, extended next hop) per side; AS paths "
+         "with 255-AS segments, >255 hops, wide AS, confed segments; attributes stored with EXTENDED/PARTIAL bits (values "
+         "obtained through the real decoder); OPEN capability blocks around 255 bytes; non-trivial = at least one frame "
+         "longer than the fixed header was produced; distinct = distinct case line",
+    expect_tokens=["(panic)", "(err 1 2)", "(err 3 1)", "(err 3 9)", "(err 2 0)", "(fp t)", "(fp na)", "(fp f)", "(eor ", "(open ",
+                   "(notif ", "keepalive", "(rr ", "(upd (r 1 1 ", "(upd none (r 2 1 ", "(upd none (r 1 1 ", "(v6ll ", "(o ",
+                   "none none (u 1 1 ", "none none none (u 2 1 ", "(errs (", "(opq "],
+    trusted_base=["model Rbgp/Enc/Model.lean (encoder) and Rbgp/Enc/Reader.lean (peer decoder, written from RFC 4271/4760/7911/"
+                  "6793/5492 and aligned with parse_message on encoder-producible frames) of packet/src/bgp.rs",
+                  "harness/pt/src/bin/c04.rs + src/c04_fam.rs: builds Message values through the public constructors (and `raw` "
+                  "attributes through the real decoder), renders ParsedMessage through public accessors; for impl-only families "
+                  "the NLRI values come from deterministic constructors and their wire bytes / decode verdicts are probes measured "
+                  "on the same build",
+                  "spec Rbgp/Enc/Spec.lean: `buildable` (what the daemon can build) and `encodable` (RFC wire-size lower bound) "
+                  "delimit the quantifier; canonicalisation = extended-length flag + FQDN lower-casing only"],
+    modelled_not_verified=["announcements towards a 2-byte-AS peer as whole messages (model + correspondence; theorem only for the "
+                           "AS_PATH transformation)", "families outside the model (hypothesis-backed, see assumptions)",
+                           "BytesMut growth/reserve, the tokio Framed adapter", "non-ASCII FQDN strings, the reserved octet of "
+                           "Family(u32) in MP capabilities", "u16 withdrawn_len accumulation (shown not to overflow by the loop bound, "
+                           "modelled as Nat)"],
+    assumptions=["theorem_backed: " + "; ".join(THEOREM_BACKED), "hypothesis_backed: " + "; ".join(HYPOTHESIS_BACKED),
+                 "buildable messages: distinct attribute codes, none of NEXT_HOP/MP_REACH/MP_UNREACH/AS4_PATH/AS4_AGGREGATOR in the "
+                 "attribute list (the encoder synthesises them), attribute contents as Attribute::decode guarantees, ORIGIN and "
+                 "AS_PATH present, path-id 0 without add-path, family negotiated, simple capability sets (no duplicate MP / "
+                 "add-path / ext-nexthop tuples)"],
+    theorem_backed=THEOREM_BACKED,
+    hypothesis_backed=HYPOTHESIS_BACKED,
+    claimed=True,
 )
 
 # ------------------------------------------------------------------------------------------------ families
